@@ -381,6 +381,11 @@ class Matcher:
                 n = core(t.n)
                 if isinstance(n, CallV) and any(core(a).r() == place for a in n.args):
                     return True
+            if isinstance(t, PhiV):
+                for c, x in t.alts:
+                    for a in F.atoms(c):
+                        if a[0] == "variant" and a[1] == place:
+                            return True
         return False
 
     def _same_shape(self, rn, fn_):
@@ -401,6 +406,8 @@ class Matcher:
         return t
 
     def match_cond(self, rc, fc, path, sp):
+        if ("anycond",) in F.atoms(rc):
+            return True
         rc, fc = alias(rc), alias(fc)
         ce, n = F.counterexample(rc, fc)
         if ce is not None:
@@ -496,6 +503,14 @@ class Matcher:
             n = dict(it)
             if it["t"] == "Tagged":
                 t = core(it["tag"])
+                if isinstance(t, PhiV):
+                    asg = {("variant", on, X): True}
+                    for c, x in t.alts:
+                        vs = _variants_of(c) or []
+                        if X in vs:
+                            n["tag"] = x
+                            t = core(x)
+                            break
                 if isinstance(t, TagV) and isinstance(t.n, V) and isinstance(core(t.n), CallV):
                     call = core(t.n)
                     tab = variant_table(self.I, call.callee)
